@@ -311,40 +311,28 @@ int sx127x_fsk_ook_is_address_filtered(sx127x *device, bool *address_filtered) {
   return SX127X_OK;
 }
 
-// ignore status code here. it will be returned in the read_payload function
-void sx127x_fsk_ook_read_payload_batch(bool read_batch, sx127x *device) {
+// returns the status of the transfer that failed, if any. the handle then still describes what was read so far
+int sx127x_fsk_ook_read_payload_batch(bool read_batch, sx127x *device) {
   uint8_t remaining_fifo = FIFO_SIZE_FSK;
   if (device->expected_packet_length == 0) {
     uint16_t packet_length;
     if (device->fsk_ook_format == SX127X_FIXED) {
-      int code = sx127x_fsk_ook_read_fixed_packet_length(device, &packet_length);
-      if (code != SX127X_OK) {
-        return;
-      }
+      ERROR_CHECK(sx127x_fsk_ook_read_fixed_packet_length(device, &packet_length));
     } else if (device->fsk_ook_format == SX127X_VARIABLE) {
       uint8_t value;
-      int code = sx127x_read_register(REGFIFO, &device->spi_device, &value);
-      if (code != SX127X_OK) {
-        return;
-      }
+      ERROR_CHECK(sx127x_read_register(REGFIFO, &device->spi_device, &value));
       packet_length = value;
       remaining_fifo--;
     } else {
-      return;
+      return SX127X_OK;
     }
     device->expected_packet_length = packet_length;
     bool address_filtered;
-    int code = sx127x_fsk_ook_is_address_filtered(device, &address_filtered);
-    if (code != SX127X_OK) {
-      return;
-    }
+    ERROR_CHECK(sx127x_fsk_ook_is_address_filtered(device, &address_filtered));
     // if node filtering is enabled, then skip next byte because it will be node id
     if (address_filtered) {
       uint8_t value;
-      code = sx127x_read_register(REGFIFO, &device->spi_device, &value);
-      if (code != SX127X_OK) {
-        return;
-      }
+      ERROR_CHECK(sx127x_read_register(REGFIFO, &device->spi_device, &value));
       // a zero length byte announces no address byte either
       if (device->expected_packet_length > 0) {
         device->expected_packet_length--;
@@ -355,42 +343,31 @@ void sx127x_fsk_ook_read_payload_batch(bool read_batch, sx127x *device) {
 
   // safe check
   if (device->expected_packet_length == device->fsk_ook_packet_sent_received) {
-    return;
+    return SX127X_OK;
   }
 
   uint8_t batch_size = HALF_MAX_FIFO_THRESHOLD - 1;
   if (read_batch && device->fsk_ook_packet_sent_received + batch_size < device->expected_packet_length) {
-    int code = sx127x_shadow_spi_read_buffer(REGFIFO, device->packet + device->fsk_ook_packet_sent_received, batch_size, &device->spi_device);
-    if (code != SX127X_OK) {
-      return;
-    }
+    ERROR_CHECK(sx127x_shadow_spi_read_buffer(REGFIFO, device->packet + device->fsk_ook_packet_sent_received, batch_size, &device->spi_device));
     device->fsk_ook_packet_sent_received += batch_size;
   } else {
     // shortcut here for packets less than max fifo size
     if (device->fsk_ook_packet_sent_received == 0 && device->expected_packet_length <= remaining_fifo) {
-      int code = sx127x_shadow_spi_read_buffer(REGFIFO, device->packet, device->expected_packet_length, &device->spi_device);
-      if (code != SX127X_OK) {
-        return;
-      }
+      ERROR_CHECK(sx127x_shadow_spi_read_buffer(REGFIFO, device->packet, device->expected_packet_length, &device->spi_device));
       device->fsk_ook_packet_sent_received = device->expected_packet_length;
     } else {
       // else read remaining bytes one by one and check FIFO_EMPTY irq
       uint8_t irq;
       do {
         uint8_t value;
-        int code = sx127x_read_register(REGFIFO, &device->spi_device, &value);
-        if (code != SX127X_OK) {
-          return;
-        }
+        ERROR_CHECK(sx127x_read_register(REGFIFO, &device->spi_device, &value));
         device->packet[device->fsk_ook_packet_sent_received] = value;
         device->fsk_ook_packet_sent_received++;
-        code = sx127x_read_register(REGIRQFLAGS2, &device->spi_device, &irq);
-        if (code != SX127X_OK) {
-          return;
-        }
+        ERROR_CHECK(sx127x_read_register(REGIRQFLAGS2, &device->spi_device, &irq));
       } while ((irq & SX127X_FSK_IRQ_FIFO_EMPTY) == 0);
     }
   }
+  return SX127X_OK;
 }
 
 int sx127x_fsk_ook_get_rssi(sx127x *device) {
@@ -420,8 +397,12 @@ void sx127x_fsk_ook_handle_interrupt(sx127x *device) {
       ERROR_CHECK_NOCODE(sx127x_shadow_spi_write_register(REGIRQFLAGS2, &irq, 1, &device->spi_device));
     } else {
       // read remaining of FIFO into the packet
-      sx127x_fsk_ook_read_payload_batch(false, device);
-      if (device->rx_callback != NULL) {
+      int code = sx127x_fsk_ook_read_payload_batch(false, device);
+      if (code != SX127X_OK) {
+        // the packet cannot be completed. drop what is left of it. if even that fails, the next invocation continues reading
+        irq = SX127X_FSK_IRQ_FIFO_OVERRUN;
+        ERROR_CHECK_NOCODE(sx127x_shadow_spi_write_register(REGIRQFLAGS2, &irq, 1, &device->spi_device));
+      } else if (device->rx_callback != NULL) {
         device->rx_callback(device, device->packet, device->expected_packet_length);
       }
     }
@@ -464,6 +445,7 @@ void sx127x_fsk_ook_handle_interrupt(sx127x *device) {
     }
   } else if (device->opmod == SX127x_MODE_RX_CONT || device->opmod == SX127x_MODE_RX_SINGLE) {
     if ((irq & SX127X_FSK_IRQ_FIFO_LEVEL) != 0 && (irq & SX127X_FSK_IRQ_FIFO_FULL) == 0) {
+      // a transfer that fails here is repeated with the next interrupt
       sx127x_fsk_ook_read_payload_batch(true, device);
     } else {
       // if not RX irq, then try preamble detect
